@@ -36,6 +36,14 @@ def run(tier, seed):
     lean = lean_obligations("C03")
     runner = build_runner(RUNNER)
     cases = corpus_cases("C03") + streamfam.histories(rng, tier)
+    # the tag byte is delivered exactly as pushed, whatever its bits, through the classic, the object and the mixed API,
+    # with associated data of every block-boundary length (0, 1, 15, 16, 17, 32, 48 …)
+    for api in ("classic", "object", "mixed"):
+        for tag in list(range(0, 256, 5 if tier == "quick" else 1)) + [0x04, 0x82, 0xfc, 0xff]:
+            key, hdr = rbytes(rng, 32), rbytes(rng, 24)
+            adl = [0, 1, 15, 16, 17, 31, 32, 33, 48, 64][tag % 10]
+            line = "sstream %s %s %s - - %s D %s D" % (api, hx(key), hx(hdr), streamfam.tok_push(rng, tag % 19, adl, tag), streamfam.tok_push(rng, 3, 16 * (tag % 4), 0))
+            cases.append(Case(line, cls="tag-byte/" + api, expect=streamfam.expect_history(line), meta={"why": "stream message with tag byte 0x%02x and %d bytes of associated data" % (tag, adl)}))
     lines = assign_ids(cases)
     impl = run_engine(runner, lines)
     model = run_engine(driver_path(), lines) if lean["build_ok"] else {}
